@@ -37,7 +37,7 @@ ALL_CLASSES = SYNC_CLASSES + ASYNC_CLASSES
 
 SIG_RETRIGGER = 'C09.hsm:_change_state-while-model-not-in-transition.source'
 TABLE_MODULE = 'Props.C09Tables'
-HANG_S = 30.0       # watchdog for one run of a locked class (the sandbox may be heavily loaded)
+HANG_S = 30.0       # watchdog for one run of a locked or async class (the sandbox may be heavily loaded)
 
 
 # ---------------------------------------------------------------------------------------------
@@ -157,6 +157,29 @@ class RecModel9(object):
         raise AttributeError(name)
 
 
+_SELF_MODEL = {}
+
+
+def self_model_class(cls):
+    """subclass of a machine class that can be its own model: the recorder callbacks `cb_<slot>_<id>` are synthesised
+    on attribute access like on `RecModel9`; everything else is the class's own `__getattr__`"""
+    if cls not in _SELF_MODEL:
+        class SelfModel(cls):
+            _mid = 0
+
+            def __getattr__(self, name):
+                if name.startswith('cb_'):
+                    _, slot, cid = name.split('_')
+                    run = self.__dict__['_run']
+                    if run.is_async and run.kinds.get(int(cid), 0) >= 1:
+                        return functools.partial(run.ainvoke, self, int(slot), int(cid))
+                    return functools.partial(run.invoke, self, int(slot), int(cid))
+                return super(SelfModel, self).__getattr__(name)
+        SelfModel.__name__ = cls.__name__
+        _SELF_MODEL[cls] = SelfModel
+    return _SELF_MODEL[cls]
+
+
 class Run9(flat.FlatRun):
     """FlatRun for any of the 12 classes: constant (deterministic) conditions, coroutine callbacks and an awaiting
     driver on async classes, exception TYPE names recorded next to the canonical kinds."""
@@ -179,6 +202,41 @@ class Run9(flat.FlatRun):
         named += [c[1] for cmds, _o in desc.script.values() for c in cmds]
         self.model_objs = {m: RecModel9(m, self) for m in range(0, max(list(desc.models) + named + [3]) + 1)}
         self.machine = self.build(kwargs or {})
+
+    # -- construction ------------------------------------------------------------------------
+    def build(self, extra):
+        """the description's `build_mode` (0: everything through the constructor; 1: transitions added afterwards with
+        add_transition, models attached; 2: all states but the initial one added afterwards with add_states, then the
+        transitions) and `self_model` (the machine is its own — only — model, Machine's default)"""
+        d = self.d
+        mode, selfm = getattr(d, 'build_mode', 0), getattr(d, 'self_model', False)
+        if not mode and not selfm:
+            return flat.FlatRun.build(self, extra)
+        sd, td = self.state_defs(), self.transition_defs()
+        first = sd if mode != 2 else [x for x in sd if x['name'] == sname(d.initial)]
+        rest = [x for x in sd if x not in first]
+        kw = dict(states=first, transitions=[] if mode else td, initial=sname(d.initial), send_event=d.send_event,
+                  auto_transitions=False, ignore_invalid_triggers=d.ignore,
+                  before_state_change=self.names(d.before_sc), after_state_change=self.names(d.after_sc),
+                  prepare_event=self.names(d.prepare_event), finalize_event=self.names(d.finalize),
+                  on_exception=self.names(d.on_exception), on_final=self.names(d.on_final), queued=d.queued)
+        if not selfm:
+            kw['model'] = [self.model_objs[m] for m in d.models]
+        kw.update(extra)
+        if selfm:
+            cls = self_model_class(self.cls)
+            mach = cls.__new__(cls)
+            mach.__dict__['_run'] = self
+            mach.__init__(**kw)
+            self.model_objs[0] = mach
+        else:
+            mach = self.cls(**kw)
+        if rest:
+            mach.add_states(rest)
+        if mode:
+            for t in td:
+                mach.add_transition(**t)
+        return mach
 
     # -- recording ---------------------------------------------------------------------------
     def begin(self, model, slot, cid, args, kwargs):
@@ -441,6 +499,14 @@ STREAMS = {
     'retrigger': dict(knobs=_k(max_models=1, max_states=4, max_events=3, p_cmds=0.5, max_cmds=1, p_raise=0.02,
                                p_on_exception=0.2, p_queued=0.0, max_history=5, p_cond_false=0.3, p_share_cb=0.0),
                       steer='steer_retrigger', quick=(16, 8), thorough=(32, 60)),
+    # the same configurations built incrementally: add_transition / add_states (overridden by the markup, diagram,
+    # hierarchy and locking mixins) after the models are attached
+    'grow': dict(knobs=_k(foreign_models=True, p_raise=0.05, p_cmds=0.3, p_on_exception=0.3, p_queued=0.3, max_models=3,
+                          cmd_kinds=(TRIGGER, TRIGGER, TRIGGER, REMOVE), hist_kinds=(TRIGGER,) * 4 + (REMOVE,)),
+                 steer='steer_grow', quick=(8, 10), thorough=(16, 80)),
+    # Machine's default: the machine is its own model
+    'selfmodel': dict(knobs=_k(max_models=1, p_raise=0.05, p_cmds=0.3, p_on_exception=0.3, p_queued=0.3, max_history=8),
+                      steer='steer_self', quick=(8, 10), thorough=(16, 80)),
     # malformed neighbourhood, correspondence only: transitions to unregistered destinations (the order "resolve the
     # destination, then exit" of the hierarchical classes is part of Model/HsmFlat.lean)
     'malformed': dict(knobs=lambda: flat.Knobs(max_models=2, p_unknown_event=0.0, p_bad_dest=0.12, p_raise=0.05,
@@ -474,6 +540,16 @@ def steer_retrigger(d, rng):
         if out[0] == 'ret' and d.cb_slot[c] in (SLOT['conditions'], SLOT['unless']):
             out = ('ret', d.cb_slot[c] == SLOT['conditions'])     # the candidate goes on after the re-trigger
         d.script[(c, 0)] = ([(TRIGGER, d.models[0], rng.choice(evs))], out)
+    return d
+
+
+def steer_grow(d, rng):
+    d.build_mode = rng.choice((1, 2))
+    return d
+
+
+def steer_self(d, rng):
+    d.self_model = True
     return d
 
 
@@ -579,7 +655,7 @@ def reference(d, cls=None):
 
 def run_class(d, name, via):
     cls, kw = resolve(name, via)
-    return Run9(d, cls, kw, is_async='Async' in name).run(watchdog='Locked' in name)
+    return Run9(d, cls, kw, is_async='Async' in name).run(watchdog=('Locked' in name or 'Async' in name))
 
 
 def compare(d, ref, run, name):
@@ -713,7 +789,7 @@ def chunk(seed, idx, n, stream, tier):
                 adescs[len(descs) - 1] = dd
             moved = None
             for name, via in classes_for(d, dd, tier, rng):
-                if hung and 'Locked' in name:
+                if hung and ('Locked' in name or 'Async' in name):
                     continue        # one hang per chunk is enough: every further one costs the watchdog time-out
                 use_d, use_ref = (dd, aref) if 'Async' in name else (d, ref)
                 case = {'stream': stream, 'desc': to_json(use_d), 'cls': name, 'via': via}
@@ -803,8 +879,9 @@ class C09(runner.Check):
     rule = ('descriptions from the flat generator with the knobs of C01 (documented order), C04 (crash sweep: a callback '
             'position of a clean trace raises Exception / BaseException, with / without on_exception, second faults), C05 '
             '(callbacks that trigger events on the same / other / unregistered models, remove models, raise; queued and '
-            'unqueued), a membership stream (add_model / remove_model / dispatch from callers and callbacks) and an '
-            'unqueued re-trigger stream on one model (+ a malformed stream with unregistered destinations, model '
+            'unqueued), a membership stream (add_model / remove_model / dispatch from callers and callbacks), the same '
+            'configurations built incrementally (add_states / add_transition after the models are attached), the machine as '
+            'its own model, and an unqueued re-trigger stream on one model (+ a malformed stream with unregistered destinations, model '
             'correspondence only); every description runs on Machine and on the other 11 classes, each reached by name or '
             'through MachineFactory.get_predefined (coin flip); async classes: callbacks independently plain / coroutine / suspending coroutine; a case = '
             '(description, class); non-trivial = the reference run executes at least one transition; distinct = different '
